@@ -9,10 +9,21 @@
 //            history is a directed "starved reader" history: >= 2 readers, one reader collects 34..60
 //            times in a row (the observed totals keep changing) while the others do not collect, then
 //            the others collect: what they are given must not depend on how often somebody else
-//            collected in between.
+//            collected in between.  One history in four registers ONE (function, state) pair on two or
+//            three instruments of the same meter (the registrations are added and removed one by one):
+//            the shared callback cannot tell which instrument it is invoked for, so the model judges the
+//            number of its invocations per collection (= registrations in force) and it reports the same
+//            scripted values every time.
 // mode=race  (tsan + shim): AddCallback / RemoveCallback / instrument destruction racing Collect; a
 //            callback is never invoked after RemoveCallback (or the destruction) returned; callbacks
 //            that stay registered are invoked exactly once per collection; TSan silent.
+// mode=readers (tsan + shim): 2..3 readers of mixed temporality, each collected in a loop from its OWN
+//            thread at the same time; every callback invocation reports its own scripted totals
+//            (value = f(instrument, set, invocation number)) and notes which reader's collection it was
+//            handed to (callbacks run on the collecting thread: thread-local marker).  After the threads
+//            are joined and one quiescent collection per reader: a cumulative reader's point == the
+//            total reported in that reader's last collection, the sum of all points of a delta reader
+//            == the total reported in its last collection, every callback ran once per collection.
 // mode=gauge (asan-abi2): synchronous Gauge Record/Collect histories (ABI v2 only).
 //
 // Don't-care (counted, never judged): points for attribute sets that the callback did not report in
@@ -92,6 +103,14 @@ struct Callback
   // filled by the callback during the current collection
   std::vector<size_t> now;  // script indices used in this collection
   bool type_wrong = false;
+  // one (function, state) pair registered on several instruments of one meter: the state object handed
+  // to the SDK is `group` for every member registration; the members copy its attrs/script/decoys
+  Callback *group = nullptr;     // member: the shared state
+  bool is_group   = false;       // the shared state itself (never in SeqCase::cbs)
+  std::vector<int> members;      // group: ids of the member registrations
+  size_t calls_now = 0;          // group: invocations in the current collection
+  size_t collections_used = 0;   // group: collections in which it was invoked (script index)
+  bool partial_remove = false;   // group: a member was removed while another one stayed registered
 };
 
 struct ObsInst
@@ -137,6 +156,9 @@ struct SeqCase
   bool starved_hist = false;     // directed history class: one reader collects 34..60 times in a row
   std::vector<bool> starved;     // [reader]: does not collect during that burst (decided with the configuration)
   bool burst_done = false, in_starved_collect = false, starved_judged = false, repeated_judged = false;
+  bool shared_hist = false;  // one (function, state) pair registered on 2..3 instruments of one meter
+  std::vector<std::unique_ptr<Callback>> groups;
+  bool shared_partial_remove_collected = false;
   std::vector<std::string> meters;
   std::vector<AttrMap> pool;
   std::vector<ObsInst> insts;
@@ -156,7 +178,10 @@ struct SeqCase
   int pending_removal_phase = 0;  // 1: collect happened, 2: then a removal, 3: then another collect
   bool collected_once = false, removed_after_collect = false;
 
-  explicit SeqCase(uint64_t seed) : r(seed), rx(vf::mix(seed, 0x17dec0)), starved_hist(vf::mix(seed, 0x57a17ed) % 8 == 0) {}
+  explicit SeqCase(uint64_t seed) : r(seed), rx(vf::mix(seed, 0x17dec0)), starved_hist(vf::mix(seed, 0x57a17ed) % 8 == 0), shared_hist(vf::mix(seed, 0x5a4ed57) % 4 == 0) {}
+
+  // the state pointer a registration hands to the SDK
+  static void *state_of(Callback &cb) { return cb.group ? static_cast<void *>(cb.group) : static_cast<void *>(&cb); }
 
   // input class of a judged point: instrument kind / reader configuration (never the outcome)
   std::string point_class(int kind, size_t ri, bool delta) const
@@ -182,7 +207,7 @@ struct SeqCase
            (insts[i].monotone_script ? ":mono" : ":nonmono") + ":cbs{";
       for (int c : insts[i].cbs)
       {
-        s += std::to_string(c) + "(fn" + std::to_string(cbs[c]->fn) + (cbs[c]->replays ? ":replays" : "") + ":a";
+        s += std::to_string(c) + "(fn" + std::to_string(cbs[c]->fn) + (cbs[c]->group ? ":shared-state" : "") + (cbs[c]->replays ? ":replays" : "") + ":a";
         for (int a : cbs[c]->attrs)
           s += std::to_string(a) + ".";
         s += ") ";
@@ -313,7 +338,37 @@ struct SeqCase
       if (seen.insert(canon(m)).second)
         pool.push_back(m);
     }
+    // script of one callback: long enough for every collection of the history (and some spare)
+    auto make_script = [&](Callback &cb, const ObsInst &in) {
+      std::map<int, Val> cur;
+      std::map<int, bool> have;
+      for (size_t n = 0; n < 160; ++n)
+      {
+        std::map<int, Val> e;
+        std::map<int, std::vector<Val>> dec;
+        for (int a : cb.attrs)
+        {
+          if (!r.chance(85, 100))
+            continue;  // the set is not reported this time (it may come back)
+          Val v   = gen_total(in, cur[a], !have[a]);
+          cur[a]  = v;
+          have[a] = true;
+          e[a]    = v;
+          if (cb.replays && rx.chance(1, 3))
+            for (int64_t k = rx.range(1, 2); k > 0; --k)
+              dec[a].push_back(gen_decoy(in, v));
+        }
+        cb.script.push_back(e);
+        cb.decoy.push_back(dec);
+      }
+    };
     size_t ninst = static_cast<size_t>(r.range(1, 3));
+    if (shared_hist && ninst < 2)
+      ninst = static_cast<size_t>(rx.range(2, 3));
+    // the first `nshared` instruments carry a registration of the shared (function, state) pair: same
+    // meter, and same kind / value type / value class so that one script fits all of them
+    size_t nshared = !shared_hist ? 0 : (ninst == 2 ? 2 : static_cast<size_t>(rx.range(2, 3)));
+    Callback *grp  = nullptr;
     for (size_t i = 0; i < ninst; ++i)
     {
       ObsInst in;
@@ -324,6 +379,14 @@ struct SeqCase
       in.dbl             = r.coin();
       in.vc              = !in.dbl ? kIntClass : (r.chance(1, 3) ? kTolDouble : kExactDouble);
       in.monotone_script = r.chance(55, 100);
+      if (i > 0 && i < nshared)
+      {
+        in.meter           = insts[0].meter;
+        in.kind            = insts[0].kind;
+        in.dbl             = insts[0].dbl;
+        in.vc              = insts[0].vc;
+        in.monotone_script = insts[0].monotone_script;
+      }
       in.name            = std::string("obs_") + kind_name(in.kind) + "_" + std::to_string(i);
       // 1..3 callbacks on disjoint attribute sets
       std::vector<int> avail;
@@ -331,6 +394,40 @@ struct SeqCase
         avail.push_back(static_cast<int>(a));
       for (size_t a = avail.size(); a > 1; --a)
         std::swap(avail[a - 1], avail[r.below(a)]);
+      if (i == 0 && nshared)
+      {
+        // the shared state: 1..2 attribute sets of its own, one script for every registration
+        groups.emplace_back(new Callback());
+        grp           = groups.back().get();
+        grp->owner    = this;
+        grp->id       = -1;
+        grp->is_group = true;
+        grp->inst     = 0;
+        grp->fn       = static_cast<int>(rx.below(2));
+        grp->replays  = rx.chance(1, 3);
+        size_t own    = std::min<size_t>(static_cast<size_t>(rx.range(1, 2)), pool.size() - 1);
+        for (size_t k = 0; k < own; ++k)
+          grp->attrs.push_back(avail[avail.size() - 1 - k]);
+        make_script(*grp, in);
+      }
+      if (i < nshared)
+      {
+        for (int a : grp->attrs)
+          avail.erase(std::remove(avail.begin(), avail.end(), a), avail.end());
+        std::unique_ptr<Callback> cb(new Callback());
+        cb->owner   = this;
+        cb->id      = static_cast<int>(cbs.size());
+        cb->inst    = static_cast<int>(i);
+        cb->fn      = grp->fn;
+        cb->replays = grp->replays;
+        cb->attrs   = grp->attrs;
+        cb->script  = grp->script;
+        cb->decoy   = grp->decoy;
+        cb->group   = grp;
+        grp->members.push_back(cb->id);
+        in.cbs.push_back(cb->id);
+        cbs.push_back(std::move(cb));
+      }
       size_t ncb = std::min<size_t>(static_cast<size_t>(r.range(1, 3)), avail.size());
       for (size_t c = 0; c < ncb; ++c)
       {
@@ -346,28 +443,7 @@ struct SeqCase
           cb->attrs.push_back(avail.back());
           avail.pop_back();
         }
-        // script: long enough for every collection of the history (and some spare)
-        std::map<int, Val> cur;
-        std::map<int, bool> have;
-        for (size_t n = 0; n < 160; ++n)
-        {
-          std::map<int, Val> e;
-          std::map<int, std::vector<Val>> dec;
-          for (int a : cb->attrs)
-          {
-            if (!r.chance(85, 100))
-              continue;  // the set is not reported this time (it may come back)
-            Val v   = gen_total(in, cur[a], !have[a]);
-            cur[a]  = v;
-            have[a] = true;
-            e[a]    = v;
-            if (cb->replays && rx.chance(1, 3))
-              for (int64_t k = rx.range(1, 2); k > 0; --k)
-                dec[a].push_back(gen_decoy(in, v));
-          }
-          cb->script.push_back(e);
-          cb->decoy.push_back(dec);
-        }
+        make_script(*cb, in);
         in.cbs.push_back(cb->id);
         cbs.push_back(std::move(cb));
       }
@@ -414,6 +490,13 @@ struct SeqCase
     size_t n = cb.invocations++;
     if (fn != cb.fn)
       cb.type_wrong = true;
+    if (cb.is_group)
+    {
+      // the shared state cannot know which registration this is: it counts, and reports the same
+      // scripted values in every invocation of one collection
+      n = cb.collections_used;
+      ++cb.calls_now;
+    }
     size_t idx = std::min(n, cb.script.size() - 1);
     cb.now.push_back(idx);
     auto &in    = insts[cb.inst];
@@ -484,7 +567,7 @@ struct SeqCase
 
   void op_add(Callback &cb)
   {
-    insts[cb.inst].obj->AddCallback(fn_of(cb.fn), &cb);
+    insts[cb.inst].obj->AddCallback(fn_of(cb.fn), state_of(cb));
     if (cb.ever_added)
       readd_after_remove = true;
     cb.registered = true;
@@ -494,10 +577,18 @@ struct SeqCase
   }
   void op_remove(Callback &cb)
   {
-    insts[cb.inst].obj->RemoveCallback(fn_of(cb.fn), &cb);
+    insts[cb.inst].obj->RemoveCallback(fn_of(cb.fn), state_of(cb));
     cb.registered = false;
     note("remove(cb" + std::to_string(cb.id) + ")");
     R.count("op_remove_callback");
+    if (cb.group)
+      for (int m : cb.group->members)
+        if (cbs[m]->registered)
+        {
+          // the same (function, state) pair stays registered on another instrument
+          cb.group->partial_remove = true;
+          R.count("op_remove_one_registration_of_shared_callback");
+        }
     if (collected_once)
       removed_after_collect = true;
   }
@@ -525,6 +616,11 @@ struct SeqCase
       before.push_back(cb->invocations);
       cb->now.clear();
     }
+    for (auto &g : groups)
+    {
+      g->calls_now = 0;
+      g->now.clear();
+    }
     auto got = readers[ri]->collect();
     last_ns  = wait_clock_after(now_ns());
     ++collects;
@@ -533,6 +629,53 @@ struct SeqCase
     if (removed_after_collect)
       removal_between_collections = true;
     collected_once = true;
+
+    // ---- invocation counts of a shared (function, state) pair: once per registration in force.  When
+    // the count is right one invocation is attributed to every registered member; when it is wrong the
+    // assertion fires here once and the values of the member instruments are not judged in this
+    // collection (nobody can tell which registrations were served).
+    for (auto &gp : groups)
+    {
+      Callback &g = *gp;
+      size_t m = 0, alive_members = 0;
+      bool ever = false;
+      for (int id : g.members)
+      {
+        m += cbs[id]->registered ? 1 : 0;
+        alive_members += insts[cbs[id]->inst].alive ? 1 : 0;
+        ever |= cbs[id]->ever_added;
+      }
+      size_t k = g.calls_now;
+      if (k)
+        ++g.collections_used;
+      R.count("shared_callback_collections_checked");
+      if (g.partial_remove && m > 0)
+      {
+        R.count("shared_callback_collections_after_partial_remove");
+        shared_partial_remove_collected = true;
+      }
+      std::string rc = std::string(nreaders == 1 ? "single-reader" : "multi-reader") + ":shared-callback-state";
+      std::string what = "the (function, state) pair shared by the instruments of callbacks";
+      for (int id : g.members)
+        what += " " + std::to_string(id) + (cbs[id]->registered ? "[registered]" : "[not registered]");
+      what += " was invoked " + std::to_string(k) + " times in one collection by reader " + std::to_string(ri) + " with " + std::to_string(m) + " registration(s) in force";
+      if (k != m && m > 0)
+        R.violation("invoked-once", rc, witness(what));
+      else if (k != m)
+        R.violation("removed-not-invoked", std::string(!ever ? "never-added" : (alive_members == g.members.size() ? "after-remove" : "after-destroy")) + ":shared-callback-state", witness(what));
+      for (int id : g.members)
+        if (cbs[id]->registered)
+        {
+          ++cbs[id]->invocations;  // the model's attribution; the per-callback check below then holds
+          if (k == m)
+            cbs[id]->now = g.now.empty() ? std::vector<size_t>() : std::vector<size_t>(1, g.now.back());
+        }
+      if (g.type_wrong)
+      {
+        R.violation("observer-type", std::string(kind_name(insts[g.inst].kind)) + ":shared-callback-state", witness("the shared callback was handed the wrong ObserverResult alternative or function"));
+        g.type_wrong = false;
+      }
+    }
 
     // ---- invocation counts
     for (auto &cbp : cbs)
@@ -778,9 +921,9 @@ struct SeqCase
       if (insts[cb.inst].alive)
       {
         if (cb.registered)
-          insts[cb.inst].obj->RemoveCallback(fn_of(1 - cb.fn), &cb);  // same state, other function
+          insts[cb.inst].obj->RemoveCallback(fn_of(1 - cb.fn), state_of(cb));  // same state, other function
         else
-          insts[cb.inst].obj->RemoveCallback(fn_of(cb.fn), &cb);
+          insts[cb.inst].obj->RemoveCallback(fn_of(cb.fn), state_of(cb));  // for a shared pair: not registered on THIS instrument
         note("remove-unregistered(cb" + std::to_string(cb.id) + ")");
         R.count("op_remove_not_registered");
       }
@@ -865,6 +1008,8 @@ struct SeqCase
       R.count("hist_starved_reader");
     if (repeated_judged)
       R.count("hist_gauge_repeated_observe");
+    if (shared_partial_remove_collected)
+      R.count("hist_shared_callback_state");
     bool mixed = false;
     for (int k = 0; k < 3; ++k)
       for (size_t i = 1; i < nreaders; ++i)
@@ -1126,6 +1271,346 @@ static void race_case(uint64_t seed)
 }
 
 // ---------------------------------------------------------------------------------------------
+// readers collecting concurrently, each from its own thread
+// ---------------------------------------------------------------------------------------------
+static thread_local int tl_collecting_reader = -1;  // set by the thread that calls Collect for reader i
+
+struct CrInst
+{
+  int kind     = kObsCounter;
+  bool dbl     = false;
+  size_t nsets = 1;
+  uint64_t salt = 0;
+  std::string name;
+  std::vector<int64_t> step, off;  // per set
+  nostd::shared_ptr<mapi::ObservableInstrument> obj;
+  vf::raw_atomic<uint64_t> invocations{0};
+  // [reader]: written only by the thread that collects for that reader (or by the main thread after
+  // the join): number of invocations handed to that reader and the invocation number of the last one
+  std::vector<uint64_t> handed_count, handed_last;
+  // the total this instrument's callback reports for set a at its n-th invocation (fixed point: the
+  // integer value, or value*1024 for a double instrument).  Counters: strictly increasing in n.
+  int64_t value(size_t a, uint64_t n) const
+  {
+    if (kind == kObsCounter)
+      return off[a] + static_cast<int64_t>(n + 1) * step[a];
+    return off[a] + static_cast<int64_t>(vf::mix(salt, n * 1024 + a) % 200001) - 100000;
+  }
+};
+
+static void cr_callback(mapi::ObserverResult res, void *state)
+{
+  CrInst *in = static_cast<CrInst *>(state);
+  uint64_t n = in->invocations.fetch_add(1);
+  int ri     = tl_collecting_reader;
+  if (ri >= 0 && static_cast<size_t>(ri) < in->handed_count.size())
+  {
+    ++in->handed_count[ri];
+    in->handed_last[ri] = n;
+  }
+  bool is_dbl = nostd::holds_alternative<nostd::shared_ptr<mapi::ObserverResultT<double>>>(res);
+  for (size_t a = 0; a < in->nsets; ++a)
+  {
+    int64_t v = in->value(a, n);
+    int64_t k = static_cast<int64_t>(a);
+    if (is_dbl)
+    {
+      auto &o = nostd::get<nostd::shared_ptr<mapi::ObserverResultT<double>>>(res);
+      if (a == 0)
+        o->Observe(static_cast<double>(v) / kFx);
+      else
+        o->Observe(static_cast<double>(v) / kFx, {{"k", k}});
+    }
+    else
+    {
+      auto &o = nostd::get<nostd::shared_ptr<mapi::ObserverResultT<int64_t>>>(res);
+      if (a == 0)
+        o->Observe(v);
+      else
+        o->Observe(v, {{"k", k}});
+    }
+  }
+}
+
+static void readers_case(uint64_t seed)
+{
+  auto &R = vf::report();
+  Rng r(seed);
+  auto provider   = make_provider();
+  size_t nreaders = static_cast<size_t>(r.range(2, 3));
+  std::vector<std::shared_ptr<PullReader>> readers;
+  std::vector<bool> rdelta[3];
+  bool d0 = r.coin();
+  for (size_t i = 0; i < nreaders; ++i)
+  {
+    // the first two readers differ in temporality in two cases out of three
+    bool d  = i == 0 ? d0 : (i == 1 ? (r.chance(2, 3) ? !d0 : d0) : r.coin());
+    auto rd = std::make_shared<PullReader>(msdk::AggregationTemporality::kCumulative);
+    for (int k = 0; k < 3; ++k)
+    {
+      rdelta[k].push_back(r.chance(1, 8) ? !d : d);
+      rd->set(otype(k), rdelta[k].back() ? msdk::AggregationTemporality::kDelta : msdk::AggregationTemporality::kCumulative);
+    }
+    readers.push_back(rd);
+    provider->AddMetricReader(rd);
+  }
+  size_t nmeters = r.chance(3, 4) ? 1 : 2;
+  std::vector<nostd::shared_ptr<mapi::Meter>> meters;
+  for (size_t i = 0; i < nmeters; ++i)
+    meters.push_back(provider->GetMeter("cr_meter" + std::to_string(i)));
+  // instrument 0 of three cases in four is ballast: an observable with many attribute sets, created
+  // first, so that a reader spends some time between running the callbacks and collecting the
+  // storages of the instruments created after it (it is judged like the others)
+  size_t ninst = static_cast<size_t>(r.range(2, 3));
+  bool ballast = r.chance(3, 4);
+  std::vector<std::unique_ptr<CrInst>> insts;
+  std::map<std::string, size_t> by_name;
+  for (size_t i = 0; i < ninst; ++i)
+  {
+    std::unique_ptr<CrInst> in(new CrInst());
+    unsigned k = static_cast<unsigned>(r.below(10));
+    in->kind   = k < 5 ? kObsCounter : (k < 8 ? kObsUpDown : kObsGauge);
+    in->dbl    = r.coin();
+    in->nsets  = (i == 0 && ballast) ? static_cast<size_t>(r.range(30, 120)) : static_cast<size_t>(r.range(1, 3));
+    in->salt   = vf::mix(seed, 900 + i);
+    in->name   = std::string("cr_") + kind_name(in->kind) + "_" + std::to_string(i);
+    for (size_t a = 0; a < in->nsets; ++a)
+    {
+      in->step.push_back(r.range(1, 1000));
+      in->off.push_back(in->kind == kObsCounter ? r.range(0, 100000) : r.range(-100000, 100000));
+    }
+    in->handed_count.assign(nreaders, 0);
+    in->handed_last.assign(nreaders, 0);
+    auto &m = *meters[r.below(nmeters)];
+    if (in->kind == kObsCounter)
+      in->obj = in->dbl ? m.CreateDoubleObservableCounter(in->name, "d", "u") : m.CreateInt64ObservableCounter(in->name, "d", "u");
+    else if (in->kind == kObsUpDown)
+      in->obj = in->dbl ? m.CreateDoubleObservableUpDownCounter(in->name, "d", "u") : m.CreateInt64ObservableUpDownCounter(in->name, "d", "u");
+    else
+      in->obj = in->dbl ? m.CreateDoubleObservableGauge(in->name, "d", "u") : m.CreateInt64ObservableGauge(in->name, "d", "u");
+    in->obj->AddCallback(cr_callback, in.get());
+    by_name[in->name] = i;
+    insts.push_back(std::move(in));
+  }
+  // canonical attribute sets: set 0 has no attributes, set a has {k: a}
+  size_t maxsets = 0;
+  for (auto &in : insts)
+    maxsets = std::max(maxsets, in->nsets);
+  std::map<std::string, size_t> set_of;
+  for (size_t a = 0; a < maxsets; ++a)
+  {
+    AttrMap m;
+    if (a)
+      m["k"] = AV::i64(static_cast<int64_t>(a));
+    set_of[canon(m)] = a;
+  }
+  // per reader: what it was given.  Written by that reader's thread only, read after the join.
+  struct Cell
+  {
+    int64_t sum  = 0;   // delta reader: sum of all its points; otherwise the point of its latest collection
+    bool present = false;
+    uint64_t at  = 0;   // number of the reader's collection that carried the latest point
+    bool bad     = false;
+  };
+  struct PerReader
+  {
+    std::vector<std::vector<Cell>> cell;  // [inst][set]
+    uint64_t collections = 0;
+    std::string problem;  // first structural problem (wrong point kind, unknown stream/set)
+    std::string problem_class;
+  };
+  std::vector<PerReader> pr(nreaders);
+  for (auto &p : pr)
+    for (auto &in : insts)
+      p.cell.emplace_back(in->nsets);
+  auto to_fx = [](const CrInst &in, const Got &g, bool *ok) -> int64_t {
+    *ok = g.present && g.is_int == !in.dbl;
+    if (!*ok)
+      return 0;
+    if (!in.dbl)
+      return g.i;
+    double x = g.d * kFx;
+    *ok      = x == std::floor(x) && std::fabs(x) < 9e15;
+    return static_cast<int64_t>(x);
+  };
+  auto digest = [&](size_t ri, const std::vector<GotMetric> &got) {
+    PerReader &p = pr[ri];
+    ++p.collections;
+    for (auto &g : got)
+    {
+      auto ii = by_name.find(g.name);
+      if (ii == by_name.end())
+      {
+        if (p.problem.empty())
+          p.problem = "stream " + g.scope + "/" + g.name, p.problem_class = "unexpected-stream";
+        continue;
+      }
+      CrInst &in = *insts[ii->second];
+      bool delta = rdelta[in.kind][ri] && in.kind != kObsGauge;
+      for (auto &pt : g.points)
+      {
+        auto ai = set_of.find(pt.attrs);
+        if (ai == set_of.end() || ai->second >= in.nsets)
+        {
+          if (p.problem.empty())
+            p.problem = "instrument " + in.name + " point with attrs " + show_canon(pt.attrs) + " that its callback never reports", p.problem_class = "phantom-series";
+          continue;
+        }
+        Cell &c = p.cell[ii->second][ai->second];
+        bool ok = false;
+        int64_t v = to_fx(in, pt.v, &ok);
+        if (!ok || pt.kind != (in.kind == kObsGauge ? 1 : 0) || (in.kind == kObsGauge && !pt.lv_valid))
+          c.bad = true;
+        if (delta)
+          c.sum += v;
+        else
+          c.sum = v;
+        c.present = true;
+        c.at      = p.collections;
+      }
+    }
+  };
+  size_t rounds = static_cast<size_t>(r.range(15, 60));
+  bool ticks    = r.coin();  // every round starts at (nearly) the same time for all readers, like periodic readers with one interval
+  vf::raw_atomic<bool> go{false};
+  vf::raw_atomic<uint64_t> arrived{0};
+#ifdef OTEL_VERIF_SHIM
+  vf_configure(seed, 30000, 5000, 0, 0, 200);
+#endif
+  std::vector<std::thread> th;
+  for (size_t ri = 0; ri < nreaders; ++ri)
+    th.emplace_back([&, ri] {
+      Rng tr(vf::mix(seed, 500 + ri));
+      tl_collecting_reader = static_cast<int>(ri);
+      while (!go.load())
+        std::this_thread::yield();
+      for (size_t k = 0; k < rounds; ++k)
+      {
+        if (ticks)
+        {
+          arrived.fetch_add(1);
+          while (arrived.load() < nreaders * (k + 1))
+            std::this_thread::yield();
+        }
+        else if (tr.chance(1, 4))
+          std::this_thread::sleep_for(std::chrono::microseconds(tr.below(100)));
+        digest(ri, readers[ri]->collect());
+      }
+      tl_collecting_reader = -1;
+    });
+  go.store(true);
+  for (auto &t : th)
+    t.join();
+#ifdef OTEL_VERIF_SHIM
+  vf_configure(0, 0, 0, 0, 0, 0);
+#endif
+  // one quiescent collection per reader, then the comparison
+  int64_t last_ns = now_ns();
+  for (size_t ri = 0; ri < nreaders; ++ri)
+  {
+    last_ns              = wait_clock_after(last_ns);
+    tl_collecting_reader = static_cast<int>(ri);
+    digest(ri, readers[ri]->collect());
+    tl_collecting_reader = -1;
+    last_ns              = wait_clock_after(now_ns());
+  }
+  std::string cfg = "readers[";
+  for (size_t ri = 0; ri < nreaders; ++ri)
+    cfg += std::string(rdelta[0][ri] ? "D" : "C") + (rdelta[1][ri] ? "D" : "C") + (rdelta[2][ri] ? "D" : "C") + " ";
+  cfg += "] meters=" + std::to_string(nmeters) + " insts[";
+  for (auto &in : insts)
+    cfg += in->name + (in->dbl ? ":double" : ":int") + ":sets=" + std::to_string(in->nsets) + " ";
+  cfg += "] rounds=" + std::to_string(rounds) + (ticks ? " common-ticks" : " free-running");
+  uint64_t total_collections = 0;
+  for (auto &p : pr)
+    total_collections += p.collections;
+  for (size_t ri = 0; ri < nreaders; ++ri)
+  {
+    PerReader &p = pr[ri];
+    if (!p.problem.empty())
+      R.violation(p.problem_class, "concurrent-readers", "reader " + std::to_string(ri) + ": " + p.problem + " || " + cfg);
+    for (size_t ii = 0; ii < insts.size(); ++ii)
+    {
+      CrInst &in = *insts[ii];
+      bool delta = rdelta[in.kind][ri] && in.kind != kObsGauge;
+      std::string cls = std::string(kind_name(in.kind)) + "/concurrent-readers";
+      // invoked exactly once in each of this reader's collections
+      if (in.handed_count[ri] != p.collections)
+        R.violation("invoked-once", "concurrent-readers",
+                    "the callback of " + in.name + " ran " + std::to_string(in.handed_count[ri]) + " times on the thread of reader " + std::to_string(ri) + " which collected " + std::to_string(p.collections) + " times || " + cfg);
+      uint64_t n    = in.handed_last[ri];  // the invocation that served this reader's final (quiescent) collection
+      bool reported = false;
+      size_t further = 0;
+      for (size_t a = 0; a < in.nsets; ++a)
+      {
+        Cell &c      = p.cell[ii][a];
+        int64_t want = in.value(a, n);
+        bool okv;
+        const char *assertion;
+        if (in.kind == kObsGauge)
+        {
+          assertion = "gauge-latest";
+          okv       = c.present && !c.bad && c.at == p.collections && c.sum == want;
+          R.count("conc_readers_gauge_points_checked");
+        }
+        else if (!delta)
+        {
+          assertion = "cumulative-total";
+          okv       = c.present && !c.bad && c.at == p.collections && c.sum == want;
+          R.count("conc_readers_cumulative_points_checked");
+        }
+        else
+        {
+          assertion = "delta-difference";
+          okv       = !c.bad && c.sum == want;  // no point at all == a sum of zero
+          R.count("conc_readers_delta_sums_checked");
+        }
+        if (okv)
+          continue;
+        if (reported)
+        {
+          ++further;
+          continue;
+        }
+        reported = true;
+        char b[160];
+        snprintf(b, sizeof b, "got %.17g want %.17g", static_cast<double>(c.sum) / (in.dbl ? kFx : 1.0), static_cast<double>(want) / (in.dbl ? kFx : 1.0));
+        R.violation(assertion, cls,
+                    "reader " + std::to_string(ri) + (in.kind == kObsGauge ? "" : (delta ? "(delta): the sum of all its points " : "(cumulative): its last point ")) + "for " + in.name + " set " + std::to_string(a) + ": " +
+                        (c.present ? "" : "[no point] ") + (c.bad ? "[wrong point kind or value type] " : "") + (!delta && c.present && c.at != p.collections ? "[no point in its last collection] " : "") + b +
+                        " = the total the callback reported in this reader's last collection (invocation " + std::to_string(n) + " of " + std::to_string(in.invocations.load()) + "), after " +
+                        std::to_string(p.collections) + " collections of this reader running concurrently with " + std::to_string(nreaders - 1) + " other reader(s) and one quiescent collection || " + cfg);
+      }
+      if (further)
+        R.count("conc_readers_further_sets_same_instrument", further);
+    }
+  }
+  for (auto &in : insts)
+    if (in->invocations.load() != total_collections)
+      R.violation("invoked-once", "concurrent-readers", "the callback of " + in->name + " ran " + std::to_string(in->invocations.load()) + " times in " + std::to_string(total_collections) + " collections || " + cfg);
+  bool mixed = false;
+  for (int k = 0; k < 2; ++k)
+    for (size_t i = 1; i < nreaders; ++i)
+      mixed |= rdelta[k][i] != rdelta[k][0];
+  R.count("conc_readers_runs");
+  R.count("conc_readers_collections", total_collections);
+  if (mixed)
+    R.count("conc_readers_runs_mixed_temporality");
+  if (ticks)
+    R.count("conc_readers_runs_common_ticks");
+  if (ballast)
+    R.count("conc_readers_runs_with_ballast");
+  R.nontrivial(vf::mix(seed, total_collections));
+  R.signature(vf::mix(seed, total_collections));
+  if (R.want_sample(2))
+    R.sample("concurrent readers: " + cfg);
+  for (auto &in : insts)
+    in->obj = nostd::shared_ptr<mapi::ObservableInstrument>();
+  meters.clear();
+  provider.reset();
+}
+
+// ---------------------------------------------------------------------------------------------
 // synchronous Gauge (ABI v2)
 // ---------------------------------------------------------------------------------------------
 #if OPENTELEMETRY_ABI_VERSION_NO >= 2
@@ -1313,7 +1798,7 @@ int main(int argc, char **argv)
   }
 #endif
   static Watchdog *dog = nullptr;  // never destroyed: its thread is detached
-  if (mode == "race")
+  if (mode == "race" || mode == "readers")
     dog = new Watchdog(static_cast<int>(R.opt.param("watchdog_s", R.opt.thorough ? 600 : 300)));
   R.run_cases([&](uint64_t i) {
     uint64_t seed = R.case_seed(i);
@@ -1321,6 +1806,12 @@ int main(int argc, char **argv)
     {
       dog->begin("callback-churn-vs-collect");
       race_case(seed);
+      dog->end();
+    }
+    else if (mode == "readers")
+    {
+      dog->begin("concurrent-readers");
+      readers_case(seed);
       dog->end();
     }
 #if OPENTELEMETRY_ABI_VERSION_NO >= 2
